@@ -12,7 +12,10 @@ def handlers : List (List String → Option String) := [
   handleInput,
   Split.handleSplit,
   Doc.handleDoc,
-  Legacy.handleLeg
+  Legacy.handleLeg,
+  EncB.handleEncP,
+  L2T.handleL2T,
+  World.handleHist
 ]
 
 def handle (fields : List String) : String :=
